@@ -4,11 +4,20 @@ from oracledefs import applier
 APPLIER = Comp('applier', n_quick=3200, n_thorough=100000, oracle=applier.applier_oracle, nontrivial=applier.applier_nontrivial,
                stats=applier.applier_stats, chunk_min=100, timeout=900)
 
+from oracledefs import repl
+REPL_ONCE = Comp('repl', n_quick=20, n_thorough=90, oracle=repl.repl_once_oracle, nontrivial=repl.repl_once_nontrivial, stats=repl.repl_stats,
+                 differential=False, chunk_min=10 ** 6, timeout=1500, shrink=False)
+
 reg(Prop('C13', 'Kevo.Props.C13',
          facts=['facts:applier.*', 'consts:wal.OpTypePut', 'consts:wal.OpTypeDelete', 'consts:wal.OpTypeMerge'],
-         components=[APPLIER],
+         components=[APPLIER, REPL_ONCE],
          fact_tags=['applier'],
-         rule='component applier: generated delivery schedules against the REAL replication.WALBatchApplier (ApplyEntries, '
+         rule='component repl (the end-to-end scenarios of C14, implementation only) with the exactly-once observer: the harness wraps the '
+              'replica\'s engine and records every replicated operation that was applied successfully; per run of the replica\'s process and '
+              'per key that list must be a subsequence of the primary\'s operations in log order (nothing twice, nothing out of order); '
+              'class outage cuts the network between replica and primary (a relay closes every connection) while applied entries are '
+              'unacknowledged. '
+              'component applier: generated delivery schedules against the REAL replication.WALBatchApplier (ApplyEntries, '
               'AcknowledgeUpTo, Reset), the real SerializeWALEntry/DeserializeWALEntry/WALEntryToProto, the real CompressionManager '
               '(zstd, snappy), the real Primary selection (log written through the real WAL, NegativeAcknowledge on a fake stream -> '
               'GetEntriesFrom + 100-entry cut) and, in `engine` cases, the real EngineApplier on a real read-only engine; the replica '
